@@ -8,7 +8,8 @@ import (
 	"verif.local/simrt"
 )
 
-var indents = []string{"", " ", "\t", "  ", "    "}
+var indents = []string{"", " ", "\t", "  ", "    ", "  ", "\t",
+	strings.Repeat(" ", 63), strings.Repeat(" ", 64), strings.Repeat(" ", 65), strings.Repeat("\t", 70), strings.Repeat(" \t", 40), strings.Repeat(" ", 300), "\n", "\r\n ", "x", "\u00a0", "--"}
 
 type scenGen struct {
 	r      *gen.R
